@@ -931,6 +931,31 @@ Theorem C06_node_axes_from_source_3d_y :
        axis_nodes (nth 2 origin (nofZ 0)) (nth 2 gridsize (nofZ 0)) (nth 2 shape 0%Z).
 Proof. exact @ApiGenEq.gen_axis_3d_yaxis_eq_gen. Qed.
 
+(* extracted from Eikonal2D.__init__ (`origin if origin is not None else np.zeros(2)`): omitting the origin IS passing the zero vector, every numeric instance *)
+Theorem C06_omitted_origin_is_zero_vector_2d :
+  forall (T : Type) (N : Num T), ApiGen.eikonal_origin_2d None = ApiGen.eikonal_origin_2d (Some [nofZ 0; nofZ 0]).
+Proof. exact @ApiGenEq.gen_eikonal_origin_2d_default. Qed.
+
+(* 3D *)
+Theorem C06_omitted_origin_is_zero_vector_3d :
+  forall (T : Type) (N : Num T),
+       ApiGen.eikonal_origin_3d None = ApiGen.eikonal_origin_3d (Some [nofZ 0; nofZ 0; nofZ 0]).
+Proof. exact @ApiGenEq.gen_eikonal_origin_3d_default. Qed.
+
+(* and the kernel then receives the hand model's arguments for the zero origin *)
+Theorem C06_solver_arguments_with_omitted_origin_2d :
+  forall (T : Type) (N : Num T) (grid gridsize src : list T) (nsweep : Z) (rg : bool),
+       ApiGen.solve_args_2d grid gridsize (ApiGen.eikonal_origin_2d None) src nsweep rg =
+       (solve_args grid gridsize [nofZ 0; nofZ 0] src, nsweep, rg).
+Proof. exact @ApiGenEq.gen_solve_args_2d_default_origin. Qed.
+
+(* 3D *)
+Theorem C06_solver_arguments_with_omitted_origin_3d :
+  forall (T : Type) (N : Num T) (grid gridsize src : list T) (nsweep : Z) (rg : bool),
+       ApiGen.solve_args_3d grid gridsize (ApiGen.eikonal_origin_3d None) src nsweep rg =
+       (solve_args grid gridsize [nofZ 0; nofZ 0; nofZ 0] src, nsweep, rg).
+Proof. exact @ApiGenEq.gen_solve_args_3d_default_origin. Qed.
+
 Print Assumptions C06_axis_shift.
 Print Assumptions C06_searchsorted_commutes_with_translation.
 Print Assumptions C06_interp2d_translate.
@@ -946,3 +971,7 @@ Print Assumptions C06_solve_result_carries_absolute_source_and_origin_2d.
 Print Assumptions C06_solve_result_carries_absolute_source_and_origin_3d.
 Print Assumptions C06_node_axes_from_source_2d_z.
 Print Assumptions C06_node_axes_from_source_3d_y.
+Print Assumptions C06_omitted_origin_is_zero_vector_2d.
+Print Assumptions C06_omitted_origin_is_zero_vector_3d.
+Print Assumptions C06_solver_arguments_with_omitted_origin_2d.
+Print Assumptions C06_solver_arguments_with_omitted_origin_3d.
